@@ -1,7 +1,7 @@
 (* EffectsSaveProofs.v — C10: the paths save_dict writes (Model/EffectsSave.v) stay inside what the run-time monitor
-   accepts (Model/Effects.v), for every URL file path and every clean absolute configured path — except for the
-   EMPTY file-dictionary name (document URI `file:///`), where the temporary file lands NEXT TO the file-dictionary
-   directory (finding FC10a, witness below). *)
+   accepts (Model/Effects.v), for every URL file path and every clean absolute configured path.  (Before 08b9da8 the
+   EMPTY file-dictionary name — document URI `file:///` — put the temporary file NEXT TO the file-dictionary
+   directory: finding FC10a, kept below as a history witness over file_dict_plan_old.) *)
 Require Import Base EffectsBase Effects EffectsProofs EffectsSave.
 From Coq Require Import String.
 Open Scope list_scope.
@@ -132,7 +132,7 @@ Proof. intros p n Hn. unfold dir_of. rewrite dir_of_aux_child by exact Hn. refle
 (* HarperAddToFileDict, any document whose URL has a file path with at least one component: the temporary file and the
    dictionary are both files directly inside the configured file-dictionary directory, whatever the URL is
    (absolute, `..`, %2F …: file_dict_name flattens every component into one slash-free name) *)
-Theorem file_dict_save_inside : forall c filedir fp,
+Lemma file_dict_save_named : forall c filedir fp,
   comps filedir <> [] -> clean (comps filedir) -> m_filedir c = render (comps filedir) ->
   file_dict_name fp <> [] ->
   let d := m_filedir c ++ slash :: file_dict_name fp in
@@ -150,7 +150,7 @@ Proof.
     rewrite E in Hin. destruct Hin as [E' | [E' | []]]; discriminate E'. }
   assert (Hd : dir_of (m_filedir c ++ slash :: name) = m_filedir c) by (apply dir_of_child; exact Hns).
   split; [| split; [| split]].
-  - unfold file_dict_plan. f_equal. unfold join_comps. fold name.
+  - unfold file_dict_plan. fold name. rewrite (beqb_neq _ _ Hname). f_equal. unfold join_comps.
     destruct name as [| c0 rest] eqn:En; [exfalso; apply Hname; reflexivity |].
     rewrite (proj2 (N.eqb_neq c0 slash)) by (apply Hns; left; reflexivity).
     rewrite <- En in *. rewrite (comps_single name Hns Hname Hn1).
@@ -187,29 +187,41 @@ Proof.
   - unfold rename_allowed, dict_file, tmp_of. rewrite !beqb_refl. reflexivity.
 Qed.
 
-(* PREPARED for fixes/FC10a-empty-file-dict-name.diff: with file_dict_plan_fixed every save that happens at all is inside *)
-Theorem file_dict_save_inside_fixed : forall c filedir fp o s d,
+(* HarperAddToFileDict, ANY document URI (no hypothesis on the URL or its file path): whenever something is written at
+   all, it is `<dir>/<name>.tmp`, renamed onto `<dir>/<name>`, <name> the non-empty slash-free file-dictionary name —
+   both files directly inside the configured file-dictionary directory, accepted by the monitor *)
+Theorem file_dict_save_inside : forall c filedir fp o s d,
   comps filedir <> [] -> clean (comps filedir) -> m_filedir c = render (comps filedir) ->
-  file_dict_plan_fixed filedir fp = Some (o, s, d) ->
+  file_dict_plan filedir fp = Some (o, s, d) ->
+  (exists p, fp = Some p /\ file_dict_name p <> [] /\ d = m_filedir c ++ slash :: file_dict_name p /\
+             o = d ++ tmp_suffix /\ s = o) /\
   path_allowed c o = true /\ path_allowed c d = true /\ rename_allowed c s d = true.
 Proof.
-  intros c filedir fp o s d HF Hc Hm H. unfold file_dict_plan_fixed in H. destruct fp as [p |]; [| discriminate H].
+  intros c filedir fp o s d HF Hc Hm H. unfold file_dict_plan in H. destruct fp as [p |]; [| discriminate H].
   destruct (beqb (file_dict_name p) []) eqn:E; [discriminate H |].
   assert (Hn : file_dict_name p <> []) by (intros E'; rewrite E', beqb_refl in E; discriminate E).
-  destruct (file_dict_save_inside c filedir p HF Hc Hm Hn) as [Hp [H1 [H2 H3]]].
-  rewrite Hp in H. inversion H; subst o s d. repeat split; assumption.
+  destruct (file_dict_save_named c filedir p HF Hc Hm Hn) as [Hp [H1 [H2 H3]]].
+  unfold file_dict_plan in Hp. rewrite E in Hp. rewrite H in Hp. inversion Hp; subst o s d.
+  split; [| repeat split; assumption].
+  exists p. split; [reflexivity |]. split; [exact Hn |]. split; [reflexivity |]. split; reflexivity.
 Qed.
 
-(* FC10a: the EMPTY name.  `file:///` has the file path "/", no component; file_dict_path.join("") is "<dir>/", whose
-   file name is the directory's own name: save_dict creates `<dir>.tmp` NEXT TO the file-dictionary directory and
-   tries to rename it onto "<dir>/".  The monitor rejects both system calls. *)
-Lemma file_dict_empty_name_refuted :
+(* and a URL whose file path has no component (`file:///`) writes nothing (08b9da8) *)
+Lemma file_dict_no_name_nothing : forall filedir p, file_dict_name p = [] -> file_dict_plan filedir (Some p) = None.
+Proof. intros filedir p H. unfold file_dict_plan. rewrite H. reflexivity. Qed.
+
+(* HISTORY — FC10a, fixed by 08b9da8.  Over the OLD definition file_dict_plan_old (the empty name was joined too):
+   `file:///` has the file path "/", no component; file_dict_path.join("") is "<dir>/", whose file name is the
+   directory's own name: save_dict created `<dir>.tmp` NEXT TO the file-dictionary directory and tried to rename it
+   onto "<dir>/".  The monitor rejects both system calls; the current definition writes nothing for this input. *)
+Lemma file_dict_empty_name_old_refuted :
   let c := mkcfg (bytes_of_string "/s/cfg/user.txt"%string) (bytes_of_string "/s/fd"%string) (bytes_of_string "/s/data/stats.txt"%string) [] in
   exists fp, file_dict_name fp = [] /\
-    file_dict_plan (m_filedir c) (Some fp) =
+    file_dict_plan_old (m_filedir c) (Some fp) =
       Some (bytes_of_string "/s/fd.tmp"%string, bytes_of_string "/s/fd.tmp"%string, bytes_of_string "/s/fd"%string) /\
     judge c (EvOpen true (bytes_of_string "/s/fd.tmp"%string)) = VWrite /\
-    judge c (EvRename (bytes_of_string "/s/fd.tmp"%string) (bytes_of_string "/s/fd"%string)) = VWrite.
+    judge c (EvRename (bytes_of_string "/s/fd.tmp"%string) (bytes_of_string "/s/fd"%string)) = VWrite /\
+    file_dict_plan (m_filedir c) (Some fp) = None.
 Proof. cbv zeta. exists [slash]. vm_compute. repeat split; reflexivity. Qed.
 
 (* non-vacuity of the two theorems, and what an ABSOLUTE or `..` name would do if file_dict_name ever returned one
@@ -219,6 +231,8 @@ Lemma save_plan_examples :
   file_dict_name (b "/home/u/proj/../dö c.md"%string) = b "home%u%proj%..%dö c.md%"%string /\
   file_dict_plan (b "/s/fd/"%string) (Some (b "/home/u/a.md"%string)) = Some (b "/s/fd/home%u%a.md%.tmp"%string, b "/s/fd/home%u%a.md%.tmp"%string, b "/s/fd/home%u%a.md%"%string) /\
   file_dict_plan (b "/s/fd"%string) None = None /\
+  file_dict_plan (b "/s/fd"%string) (Some (b "/"%string)) = None /\
+  file_dict_plan (b "/s/fd"%string) (Some (b "/.//"%string)) = None /\
   user_dict_plan (b "/s//cfg/./user.txt"%string) = (b "/s/cfg/user.txt.tmp"%string, b "/s/cfg/user.txt.tmp"%string, b "/s/cfg/user.txt"%string) /\
   save_plan (join_comps (b "/s/fd"%string) (b "/home/u/draft.md%"%string)) = (b "/home/u/draft.md%.tmp"%string, b "/home/u/draft.md%.tmp"%string, b "/home/u/draft.md%"%string) /\
   save_plan (join_comps (b "/s/fd"%string) (b "../../x%"%string)) = (b "/x%.tmp"%string, b "/x%.tmp"%string, b "/x%"%string).
